@@ -26,7 +26,9 @@ def register(PROPS, h):
               "and path(s) per file, the same hunks: header bytes (incl. text after the second @@), old/new ranges, and per "
               "line kind, bytes (incl. trailing blanks) and line numbers. Blob ids, modes and stats are not compared. "
               "Secondary clauses: encode(decode(text)) == text; per file DiffContent::parse(content.to_unified_string()) "
-              "(heartwood's own hunk/line decoder) keeps hunk count, header numbers+text, line kinds/bytes/numbers. "
+              "(heartwood's own hunk/line decoder) keeps hunk count, header numbers+text, line kinds/bytes/numbers and "
+              "re-encodes to the same text; if the decoder rejects the text, an own reader of the git file headers in "
+              "the text still compares kinds, paths and hunk counts. "
               "Half of the cases contain no line ending in whitespace and half no exact rename, so a quarter of the cases "
               "exercises everything apart from those two shapes. Excluded and counted (never given to the encoder): "
               "diffs in which git detects a binary file or reports a Copied entry (encoder: todo!()). Never generated: "
@@ -50,17 +52,17 @@ def register(PROPS, h):
                    "line:starts-with-diff--git": 15_000, "line:starts-with-backslash": 15_000,
                    "line:unicode": 250_000, "line:long>=1000": 25_000,
                    "opts:rad-diff": 30_000, "opts:review": 40_000, "context:0": 5_000},
-            thorough={"evaluations": 3_500_000, "roundtrips": 3_000_000, "held": 700_000,
-                      "case:no-line-with-trailing-whitespace": 1_000_000, "case:has-line-with-trailing-whitespace": 800_000,
-                      "case:has-moved-file": 250_000, "case:no-moved-file": 2_000_000,
-                      "kind:added": 1_500_000, "kind:deleted": 1_500_000, "kind:modified": 3_000_000, "kind:moved": 250_000,
-                      "file:several-hunks": 700_000, "header:with-context-text": 1_500_000,
-                      "file:mode-and-content-change": 150_000, "file:mode-change-only": 70_000,
-                      "line:trailing-blank": 4_000_000, "line:whitespace-only": 1_500_000, "line:crlf": 3_000_000,
-                      "line:trailing-unicode-space": 700_000, "line:starts-with-plus": 1_500_000,
-                      "line:starts-with-minus": 1_500_000, "line:starts-with-@@": 1_500_000,
-                      "line:starts-with-diff--git": 400_000, "line:starts-with-backslash": 400_000,
-                      "line:unicode": 7_000_000, "line:long>=1000": 700_000}),
+            thorough={"evaluations": 2_100_000, "roundtrips": 1_500_000, "held": 420_000,
+                      "case:no-line-with-trailing-whitespace": 600_000, "case:has-line-with-trailing-whitespace": 480_000,
+                      "case:has-moved-file": 150_000, "case:no-moved-file": 1_200_000,
+                      "kind:added": 900_000, "kind:deleted": 900_000, "kind:modified": 1_800_000, "kind:moved": 150_000,
+                      "file:several-hunks": 420_000, "header:with-context-text": 900_000,
+                      "file:mode-and-content-change": 90_000, "file:mode-change-only": 42_000,
+                      "line:trailing-blank": 2_400_000, "line:whitespace-only": 900_000, "line:crlf": 1_800_000,
+                      "line:trailing-unicode-space": 420_000, "line:starts-with-plus": 900_000,
+                      "line:starts-with-minus": 900_000, "line:starts-with-@@": 900_000,
+                      "line:starts-with-diff--git": 240_000, "line:starts-with-backslash": 240_000,
+                      "line:unicode": 4_200_000, "line:long>=1000": 420_000}),
         runs=dict(
             quick=[native("h-cli", "C30")],
             thorough=[native("h-cli", "C30")],
